@@ -25,12 +25,20 @@ namespace vf {
 static const int kSmallSetNumOps = 31;
 
 template <class X>
+struct IsFlatSetT : std::false_type {};
+template <class T, class C, class A, class V>
+struct IsFlatSetT<amc::FlatSet<T, C, A, V> > : std::true_type {};
+
+template <class X>
 struct SmallSetN;
 template <class T, uintmax_t N, class C, class A, class ST>
 struct SmallSetN<amc::SmallSet<T, N, C, A, ST> > {
   static const long value = static_cast<long>(N);
   typedef ST set_type;
   static const bool flat = std::is_same<typename amc::SmallSet<T, N, C, A, ST>::iterator, const T *>::value;
+  // extract(const_iterator) is absent (does not compile) for every FlatSet-backed SmallSet of the pinned tree: with pointer iterators
+  // SmallSet has no toVecIt, with class-type iterators (std::vector-backed FlatSet) FlatSet::extract(const_iterator) const_casts an iterator
+  static const bool no_extract_pos = flat || IsFlatSetT<ST>::value;
 };
 
 template <class S, class SB>
@@ -46,6 +54,7 @@ class SmallSetInterp {
   static const int KEYS = N > 12 ? 32 : 16;  // key domain: large enough to fill the inline storage of the big configurations
   static const long NB = SmallSetN<SB>::value;
   static const bool FLAT = SmallSetN<S>::flat;
+  static const bool NO_EXTRACT_POS = SmallSetN<S>::no_extract_pos;
   static const bool COPYABLE = ET<E>::copyable;
 
   struct Slot {
